@@ -920,8 +920,13 @@ class ExcelCompiler:
                 else:
                     self.log.info(
                         f"Cell {cell.address} evaluated to '{value}' ({type(value).__name__})")
-                cell.value = (value[0][0] if list_like(value[0]) else value[0]
-                              ) if list_like(value) else value
+                if list_like(value):
+                    value = value[0][0] if list_like(value[0]) else value[0]
+                    if value is None:
+                        # the first cell of the range is empty, which shows as
+                        # 0 (None would mean: not calculated)
+                        value = 0
+                cell.value = value
 
         return cell.value
 
